@@ -4,6 +4,8 @@
     * output, set-field (any decodable OXM TLV), Nicira NXAST_RESUBMIT_TABLE
     * `InstrDec ib iv` : the same for one instruction and DecodeInstr
     * goto-table, write-metadata, write/apply/clear-actions with ANY list of decodable actions
+    * meter (any meter id), set_nw_ttl / set_mpls_ttl (any ttl), the header-only actions copy_ttl_out, copy_ttl_in,
+      dec_mpls_ttl, dec_nw_ttl, pop_pbb — 8 bytes each
     * `instrs_loop`    : the instruction loop of a flow-stats record over ANY list of decodable instructions
   Used by OFV/Props/C04b.lean.
 -/
@@ -418,7 +420,7 @@ theorem instrs_lens (is : List (Bytes × V)) (h : ∀ p ∈ is, InstrDec p.1 p.2
     simp only [List.map_cons, mapM2, this, Res.bind_ok, ih (fun q hq => h q (by simp [hq]))]
     rfl
 
-/-! ### what goes wrong: instructions and actions whose size the library gets wrong -/
+/-! ### meter instruction, ttl actions, header-only actions (each 8 bytes) -/
 
 theorem goLoop_panic {σ} (f : Nat) (cond : σ → Bool) (cursor : σ → Nat) (body : σ → R σ) (s : σ)
     (hc : cond s = true) (hb : body s = .panic) : goLoop (f + 1) cond cursor body s = .panic := by
@@ -435,38 +437,114 @@ theorem drop_len' (r : Slice) (hwf : r.WF) (n : Nat) (x : Bytes) (h : r.bytes.dr
     have : 0 < x.length := List.length_pos_iff.mpr hx
     omega
 
-/-- a meter instruction (type 6, length 8, 32-bit meter id below 65536, i.e. upper half zero) inside a record: the
-    library takes the instruction for 4 bytes (`InstrMeter` has no size of its own) and then decodes the meter id as the
-    next instruction header — type 0 is no instruction and the nil interface is dereferenced -/
-theorem instrs_meter_panic (data : Slice) (hwf : data.WF) (n : Nat) (meterId : UInt16) (rest : Bytes)
-    (hb : data.bytes.drop n = be16 6 ++ (be16 8 ++ (be16 0 ++ (be16 meterId ++ rest)))) (limit : Nat) (hlim : n + 8 ≤ limit) :
-    FlowStats.decodeInstrs data limit n [] = .panic := by
-  have hl : data.len = n + (8 + rest.length) := by
-    rcases drop_len' data hwf n _ hb with h | ⟨h, _⟩
-    · rw [h]; simp; omega
-    · cases h
-  obtain ⟨d, e1, hdwf, hdl, hd⟩ := Sw.fromR_at data hwf n (by omega)
-  obtain ⟨d2, e2, hd2wf, hd2l, hd2⟩ := Sw.fromR_at data hwf (n + 4) (by omega)
-  rw [hb] at hd
-  have hd2' : d2.bytes = be16 0 ++ (be16 meterId ++ rest) := by
-    rw [hd2, ← List.drop_drop, hb]; rfl
-  have h1 : DecodeInstr d = .ok InstrMeter.zero := by
-    unfold DecodeInstr
-    rw [Sw.u16In_at d hdwf 0 2 6 _ (by omega) (by omega) (by rw [hd]; rfl)]
-    show (InstrAux.catchErr (InstrMeter.unmarshal InstrMeter.zero d) InstrMeter.zero >>= _) = _
-    unfold InstrMeter.unmarshal InstrMeter.zero InstrHeader.unmarshal InstrAux.catchErr
-    simp only
-    rw [if_pos (by omega)]
-    rfl
-  have h2 : DecodeInstr d2 = .panic := by
-    unfold DecodeInstr
-    rw [Sw.u16In_at d2 hd2wf 0 2 0 _ (by omega) (by omega) (by rw [hd2']; rfl)]
-    rfl
-  unfold FlowStats.decodeInstrs
-  rw [Sw.goLoop_step _ _ _ _ _ ⟨n + 4, [InstrMeter.zero]⟩ (by simp; omega)
-      (by simp only [e1, Res.bind_ok, h1]; rfl) (by show n < n + 4; omega),
-    goLoop_panic _ _ _ _ _ (by simp; omega) (by simp only [e2, Res.bind_ok, h2]; rfl)]
+/-- the decoded meter instruction -/
+def meterV (meterId : UInt32) : V :=
+  .obj "InstrMeter" [.obj "InstrHeader" [.num 6, .num 8], .num meterId.toNat]
+
+/-- meter: type 6, length 8, meter id(4) — ANY 32-bit meter id -/
+theorem instr_meter (meterId : UInt32) : InstrDec (be16 6 ++ (be16 8 ++ be32 meterId)) (meterV meterId) := by
+  refine ⟨?_, rfl, by simp, by simp⟩
+  intro d hwf rest hb
+  have hl : d.len = 8 + rest.length := by rw [← Sw.bytes_length d hwf, hb]; simp; omega
+  unfold DecodeInstr
+  rw [Sw.u16In_at d hwf 0 2 6 _ (by omega) (by omega) (by rw [hb]; rfl)]
+  show (InstrAux.catchErr (InstrMeter.unmarshal InstrMeter.zero d) InstrMeter.zero >>= _) = _
+  unfold InstrMeter.unmarshal InstrMeter.zero InstrAux.catchErr
+  simp only
+  rw [if_neg (by omega)]
+  simp only [instrHeader4 d hwf 6 8 (be32 meterId ++ rest) (by rw [hb]; simp only [List.append_assoc]),
+    Sw.u32From_at d 4 meterId _ (by rw [hb]; rfl), Res.bind_ok]
   rfl
+
+/-- the action header read from `data[:4]` -/
+theorem actionHeader_upto4 (d : Slice) (hwf : d.WF) (ty ln : UInt16) (rest : Bytes) (h : d.bytes = be16 ty ++ (be16 ln ++ rest)) :
+    ∃ d4, d.uptoR 4 = .ok d4 ∧ ActionHeader.unmarshal ActionHeader.zero d4 = .ok (ActionHeader.mk ty.toNat ln.toNat) := by
+  have hl : d.len = 4 + rest.length := by rw [← Sw.bytes_length d hwf, h]; simp; omega
+  obtain ⟨d4, e0, hd4wf, hd4l, hd4⟩ := Sw.uptoR_at d hwf 4 (by omega)
+  rw [h] at hd4
+  refine ⟨d4, e0, ?_⟩
+  unfold ActionHeader.unmarshal
+  rw [if_neg (by omega), Sw.u16In_at d4 hd4wf 0 2 ty _ (by omega) (by omega) (by rw [hd4]; rfl),
+    Sw.u16In_at d4 hd4wf 2 4 ln _ (by omega) (by omega) (by rw [hd4]; rfl)]
+  rfl
+
+/-- the decoded set_nw_ttl action -/
+def setNwTtlV (ttl : UInt8) : V :=
+  .obj "ActionNwTtl" [.obj "ActionHeader" [.num 23, .num 8], .num ttl.toNat, .bytes []]
+
+/-- set_nw_ttl: type 23, length 8, ttl(1), pad(3) — ANY ttl -/
+theorem act_setNwTtl (ttl : UInt8) : ActDec (be16 23 ++ (be16 8 ++ [ttl, 0, 0, 0])) (setNwTtlV ttl) := by
+  refine ⟨?_, rfl, by simp, by simp⟩
+  intro d hwf rest hb
+  have hl : d.len = 8 + rest.length := by rw [← Sw.bytes_length d hwf, hb]; simp; omega
+  obtain ⟨d4, e0, hh⟩ := actionHeader_upto4 d hwf 23 8 ([ttl, 0, 0, 0] ++ rest) (by rw [hb]; simp only [List.append_assoc])
+  have hnew : newActionFor d = .ok ActionNwTtl.zero := by
+    unfold newActionFor
+    rw [Sw.u16In_at d hwf 0 2 23 _ (by omega) (by omega) (by rw [hb]; rfl)]
+    rfl
+  show (newActionFor d >>= fun a => _) = _
+  rw [hnew]
+  show ActionNwTtl.unmarshal ActionNwTtl.zero d = _
+  unfold ActionNwTtl.unmarshal ActionNwTtl.zero
+  simp only
+  rw [if_neg (by omega)]
+  simp only [e0, hh, Sw.byteAt_at d 4 ttl _ (by rw [hb]; rfl), Res.bind_ok]
+  rfl
+
+/-- the decoded set_mpls_ttl action -/
+def setMplsTtlV (ttl : UInt8) : V :=
+  .obj "ActionMplsTtl" [.obj "ActionHeader" [.num 15, .num 8], .num ttl.toNat, .bytes []]
+
+/-- set_mpls_ttl: type 15, length 8, ttl(1), pad(3) — ANY ttl -/
+theorem act_setMplsTtl (ttl : UInt8) : ActDec (be16 15 ++ (be16 8 ++ [ttl, 0, 0, 0])) (setMplsTtlV ttl) := by
+  refine ⟨?_, rfl, by simp, by simp⟩
+  intro d hwf rest hb
+  have hl : d.len = 8 + rest.length := by rw [← Sw.bytes_length d hwf, hb]; simp; omega
+  obtain ⟨d4, e0, hh⟩ := actionHeader_upto4 d hwf 15 8 ([ttl, 0, 0, 0] ++ rest) (by rw [hb]; simp only [List.append_assoc])
+  have hnew : newActionFor d = .ok ActionMplsTtl.zero := by
+    unfold newActionFor
+    rw [Sw.u16In_at d hwf 0 2 15 _ (by omega) (by omega) (by rw [hb]; rfl)]
+    rfl
+  show (newActionFor d >>= fun a => _) = _
+  rw [hnew]
+  show ActionMplsTtl.unmarshal ActionMplsTtl.zero d = _
+  unfold ActionMplsTtl.unmarshal ActionMplsTtl.zero
+  simp only
+  rw [if_neg (by omega)]
+  simp only [e0, hh, Sw.byteAt_at d 4 ttl _ (by rw [hb]; rfl), Res.bind_ok]
+  rfl
+
+/-- the decoded header-only action (the library uses one Go type, `ActionDecNwTtl`, for all of them) -/
+def headerOnlyV (ty : UInt16) : V :=
+  .obj "ActionDecNwTtl" [.obj "ActionHeader" [.num ty.toNat, .num 8], .bytes []]
+
+/-- the action types that consist of the header and four pad bytes: copy_ttl_out (11), copy_ttl_in (12), dec_mpls_ttl (16),
+    dec_nw_ttl (24), pop_pbb (27) -/
+def HeaderOnly (ty : UInt16) : Prop := ty.toNat = 11 ∨ ty.toNat = 12 ∨ ty.toNat = 16 ∨ ty.toNat = 24 ∨ ty.toNat = 27
+
+instance (ty : UInt16) : Decidable (HeaderOnly ty) := by unfold HeaderOnly; infer_instance
+
+theorem act_headerOnly_of_lookup (ty : UInt16) (hlk : actionTypeTable.lookup ty.toNat = some ActionDecNwTtl.zero) :
+    ActDec (be16 ty ++ (be16 8 ++ zeros 4)) (headerOnlyV ty) := by
+  refine ⟨?_, rfl, by simp, by simp⟩
+  intro d hwf rest hb
+  have hl : d.len = 8 + rest.length := by rw [← Sw.bytes_length d hwf, hb]; simp; omega
+  obtain ⟨d4, e0, hh⟩ := actionHeader_upto4 d hwf ty 8 (zeros 4 ++ rest) (by rw [hb]; simp only [List.append_assoc])
+  have hnew : newActionFor d = .ok ActionDecNwTtl.zero := by
+    unfold newActionFor
+    rw [Sw.u16In_at d hwf 0 2 ty _ (by omega) (by omega) (by rw [hb]; rfl)]
+    simp only [Res.bind_ok, hlk]
+    rfl
+  show (newActionFor d >>= fun a => _) = _
+  rw [hnew]
+  show ActionDecNwTtl.unmarshal ActionDecNwTtl.zero d = _
+  unfold ActionDecNwTtl.unmarshal ActionDecNwTtl.zero
+  simp only [e0, hh, Res.bind_ok]
+  rfl
+
+/-- copy_ttl_out, copy_ttl_in, dec_mpls_ttl, dec_nw_ttl, pop_pbb: type, length 8, pad(4) -/
+theorem act_headerOnly (ty : UInt16) (hty : HeaderOnly ty) : ActDec (be16 ty ++ (be16 8 ++ zeros 4)) (headerOnlyV ty) := by
+  rcases hty with h | h | h | h | h <;> exact act_headerOnly_of_lookup ty (by rw [h]; rfl)
 
 /-- no action type above 27 except 0xffff is known -/
 theorem actionType_unknown (x : Nat) (h : 27 < x) : actionTypeTable.lookup x = none := by
@@ -477,77 +555,5 @@ theorem actionType_unknown (x : Nat) (h : 27 < x) : actionTypeTable.lookup x = n
     Gen.openflow13.ActionType_PopMpls, Gen.openflow13.ActionType_SetQueue, Gen.openflow13.ActionType_Group,
     Gen.openflow13.ActionType_SetNwTtl, Gen.openflow13.ActionType_DecNwTtl, Gen.openflow13.ActionType_SetField,
     Gen.openflow13.ActionType_PushPbb, Gen.openflow13.ActionType_PopPbb, hne]
-
-/-- apply-actions holding one set_nw_ttl action (type 23, length 8, ttl ≠ 0, pad 3): the library takes the action for 4
-    bytes (`ActionNwTtl` has no size of its own; the ttl is never read) and then decodes `ttl 00 00 00` as the next
-    action header — an unknown type leaves the interface nil and the method call panics -/
-theorem instr_applySetNwTtl_panic (d : Slice) (hwf : d.WF) (ttl : UInt8) (httl : ttl.toNat ≠ 0) (rest : Bytes)
-    (hb : d.bytes = be16 4 ++ (be16 16 ++ (zeros 4 ++ (be16 23 ++ (be16 8 ++ ([ttl, 0, 0, 0] ++ rest)))))) :
-    DecodeInstr d = .panic := by
-  have hl : d.len = 16 + rest.length := by rw [← Sw.bytes_length d hwf, hb]; simp; omega
-  obtain ⟨d8, e1, hd8wf, hd8l, hd8⟩ := Sw.fromR_at d hwf 8 (by omega)
-  obtain ⟨d12, e2, hd12wf, hd12l, hd12⟩ := Sw.fromR_at d hwf 12 (by omega)
-  rw [hb] at hd8 hd12
-  have hd8' : d8.bytes = be16 23 ++ (be16 8 ++ ([ttl, 0, 0, 0] ++ rest)) := hd8
-  have hd12' : d12.bytes = be16 (UInt16.ofNat (ttl.toNat * 256 + (0 : UInt8).toNat)) ++ ([0, 0] ++ rest) := by
-    rw [hd12, be16_rd16]; rfl
-  have hact1 : DecodeAction (d8.len + 1) d8 = .ok (.obj "ActionNwTtl" [ActionHeader.mk 23 8, .num 0, .bytes []]) := by
-    have hnew : newActionFor d8 = .ok ActionNwTtl.zero := by
-      unfold newActionFor
-      rw [Sw.u16In_at d8 hd8wf 0 2 23 _ (by omega) (by omega) (by rw [hd8']; rfl)]
-      rfl
-    show (newActionFor d8 >>= fun a => _) = _
-    rw [hnew]
-    show ActionNwTtl.unmarshal ActionNwTtl.zero d8 = _
-    unfold ActionNwTtl.unmarshal ActionNwTtl.zero ActionHeader.unmarshal
-    simp only
-    rw [if_neg (by omega), Sw.u16In_at d8 hd8wf 0 2 23 _ (by omega) (by omega) (by rw [hd8']; rfl),
-      Sw.u16In_at d8 hd8wf 2 4 8 _ (by omega) (by omega) (by rw [hd8']; rfl)]
-    rfl
-  have hty : (UInt16.ofNat (ttl.toNat * 256 + (0 : UInt8).toNat)).toNat = ttl.toNat * 256 := by
-    have := ttl.toNat_lt
-    have h0 : (0 : UInt8).toNat = 0 := rfl
-    rw [h0, Nat.add_zero, Sw.ofNat16_toNat _ (by omega)]
-  have hact2 : DecodeAction (d12.len + 1) d12 = .panic := by
-    have hnew : newActionFor d12 = .ok .nil := by
-      unfold newActionFor
-      rw [Sw.u16In_at d12 hd12wf 0 2 _ _ (by omega) (by omega) (by rw [hd12']; rfl)]
-      simp only [Res.bind_ok, hty, actionType_unknown _ (show 27 < ttl.toNat * 256 by omega)]
-      have := ttl.toNat_lt
-      rw [if_neg (show ¬ ttl.toNat * 256 = Gen.openflow13.ActionType_Experimenter by
-        show ¬ ttl.toNat * 256 = 65535; omega)]
-      rfl
-    show (newActionFor d12 >>= fun a => _) = _
-    rw [hnew]
-    rfl
-  have hacts : InstrAux.decodeActions d 16 8 [] = .panic := by
-    unfold InstrAux.decodeActions
-    rw [Sw.goLoop_step _ _ _ _ _ ⟨12, [.obj "ActionNwTtl" [ActionHeader.mk 23 8, .num 0, .bytes []]], false⟩ (by rfl)
-        (by simp only [e1, Res.bind_ok, hact1]; rfl) (by show 8 + 0 < 12 + 0; omega),
-      goLoop_panic _ _ _ _ _ (by rfl) (by simp only [e2, Res.bind_ok, hact2])]
-  have hhdr := instrHeader4 d hwf 4 16 ((zeros 4 ++ (be16 23 ++ (be16 8 ++ ([ttl, 0, 0, 0] ++ rest))))) hb
-  unfold DecodeInstr
-  rw [Sw.u16In_at d hwf 0 2 4 _ (by omega) (by omega) (by rw [hb]; rfl)]
-  show (InstrActions.unmarshalP InstrActions.zero d >>= _) = _
-  unfold InstrActions.unmarshalP InstrActions.zero
-  simp only [hhdr, Res.bind_ok]
-  have hlen16 : InstrHeader.length (.obj "InstrHeader" [.num (4 : UInt16).toNat, .num (16 : UInt16).toNat]) = 16 := rfl
-  rw [hlen16, hacts]
-  rfl
-
-/-- apply-actions with one set_nw_ttl as the first instruction of a record: the instruction loop panics -/
-theorem instrs_applySetNwTtl_panic (data : Slice) (hwf : data.WF) (n : Nat) (ttl : UInt8) (httl : ttl.toNat ≠ 0) (rest : Bytes)
-    (hb : data.bytes.drop n = be16 4 ++ (be16 16 ++ (zeros 4 ++ (be16 23 ++ (be16 8 ++ ([ttl, 0, 0, 0] ++ rest))))))
-    (limit : Nat) (hlim : n + 16 ≤ limit) : FlowStats.decodeInstrs data limit n [] = .panic := by
-  have hl : data.len = n + (16 + rest.length) := by
-    rcases drop_len' data hwf n _ hb with h | ⟨h, _⟩
-    · rw [h]; simp; omega
-    · cases h
-  obtain ⟨d, e1, hdwf, hdl, hd⟩ := Sw.fromR_at data hwf n (by omega)
-  rw [hb] at hd
-  have h1 := instr_applySetNwTtl_panic d hdwf ttl httl rest hd
-  unfold FlowStats.decodeInstrs
-  rw [goLoop_panic _ _ _ _ _ (by simp; omega) (by simp only [e1, Res.bind_ok, h1]; rfl)]
-  rfl
 
 end OFV.Sw2
